@@ -135,7 +135,7 @@ def clientCmd (st : CStates) (cmd : String) (args : List String) : Option (CStat
     let s := flushed s
     pure (AL.insert cid s st, match s.phase with
       | .running => "running"
-      | .draining _ => "draining"
+      | .draining _ => "running"   -- has not returned yet
       | .stopped .clean => "clean"
       | .stopped .transport => "transport"
       | .stopped .unexpected => "unexpected"
